@@ -110,7 +110,8 @@ Definition reg_check (v : tval) : bool :=
    ops: [0] open (carried through to a running tunnel, or refused), [1;k] the k-th arrival's connection ends,
         [2] open whose tunnel is closed by its peer between RegisterTunnel and Start (or refused),
         [3] open while the user-quota lookup fails (limit source = user quota),
-        [4;k] the k-th arrival's tunnel is closed from outside and its localConn.Close() parks, [5;k] that Close returns *)
+        [4;k] the k-th arrival's tunnel is closed from outside and its localConn.Close() parks, [5;k] that Close returns,
+        [6] the mapping's handler is stopped and replaced (config push) *)
 Definition m_setting_up (pc : mpc) : bool :=
   match pc with MStart _ | MLoaded _ _ | MActive _ | MEarlyClosed => true | _ => false end.
 Definition m_closing (pc : mpc) : bool := match pc with MLive | MClosing => true | _ => false end.
@@ -126,6 +127,9 @@ Fixpoint m_replay v max (s : msh * list mpc) (next : nat) (ops counts : list tva
               | Some MLive => step_while (mstep v max) m_closing 2 s (vnat (vnth 1 o))
               | _ => s
               end, next)
+        else if N.eqb (op_kind o) 6
+        then (* the handler is stopped (every connection of the mapping goes down with it) and replaced *)
+             (fold_left (fun s0 i => step_while (mstep v max) m_closing 2 s0 i) (seq 0 (length (snd s))) s, next)
         else if N.eqb (op_kind o) 4
         then (match thread_at s (vnat (vnth 1 o)) with                      (* Tunnel.Close begins; localConn.Close() parked *)
               | Some MLive => sys_step _ _ (mstep v max) s (vnat (vnth 1 o))
